@@ -56,8 +56,9 @@ def str_at(s, i):
     return z3.SubString(s, index_norm(i, z3.Length(s)), 1)
 
 
-def seq_nth(s, i):
-    return s[index_norm(i, z3.Length(s))]
+def seq_nth(s, i, ety=None):
+    from .types import snth
+    return snth(ety, s, index_norm(i, z3.Length(s))) if ety is not None else s[index_norm(i, z3.Length(s))]
 
 
 def find(s, sub, start=None):
